@@ -258,6 +258,7 @@ def check_decimal_of_number(ix, rep):
 
 def check(ix, rep):
     from sa.rules import round11 as _r11
+    rep.floor('setters of the default unit', _r11.check_default_unit_domain(ix, rep), 1)
     rep.floor('functions of the monitors scanned for rounded bounds', _r11.check_no_rounding(ix, rep), 50)
     # 1-3. the two transformers
     units.check_transformer(ix, rep, 'rtamt.semantics.discrete_time_interpreter', 'DiscreteTimeInterpreter', 'discrete')
